@@ -104,3 +104,43 @@ def ok(ans):
     if 'ok' in ans:
         return ans['ok']
     return {'model_error': ans.get('err')}
+
+
+def close(a, b, rtol=1e-9, atol=1e-12):
+    """numeric agreement of two floats; NaN agrees with NaN, inf with the same inf"""
+    a, b = float(a), float(b)
+    if math.isnan(a) or math.isnan(b):
+        return math.isnan(a) and math.isnan(b)
+    if math.isinf(a) or math.isinf(b):
+        return a == b
+    return abs(a - b) <= atol + rtol * max(abs(a), abs(b))
+
+
+def first_diff(a, b, rtol=1e-9, atol=1e-12, path=''):
+    """first position where two nested lists of numbers / strings differ, or None"""
+    if isinstance(a, (list, tuple)) and isinstance(b, (list, tuple)):
+        if len(a) != len(b):
+            return f'{path}: length {len(a)} != {len(b)}'
+        for k, (x, y) in enumerate(zip(a, b)):
+            d = first_diff(x, y, rtol, atol, f'{path}[{k}]')
+            if d:
+                return d
+        return None
+    if isinstance(a, dict) and isinstance(b, dict):
+        if sorted(a) != sorted(b):
+            return f'{path}: keys {sorted(a)} != {sorted(b)}'
+        for k in sorted(a):
+            d = first_diff(a[k], b[k], rtol, atol, f'{path}.{k}')
+            if d:
+                return d
+        return None
+    if isinstance(a, bool) or isinstance(b, bool) or isinstance(a, str) or isinstance(b, str) \
+            or a is None or b is None:
+        if (a is None and isinstance(b, float) and math.isnan(b)) or \
+                (b is None and isinstance(a, float) and math.isnan(a)):
+            return None
+        return None if a == b else f'{path}: {a!r} != {b!r}'
+    try:
+        return None if close(a, b, rtol, atol) else f'{path}: {a!r} != {b!r}'
+    except (TypeError, ValueError):
+        return None if a == b else f'{path}: {a!r} != {b!r}'
